@@ -13,7 +13,7 @@ from ..report import Registry, chain, sub
 from ._helpers_rules_a import Unsupported, self_attr
 from ._helpers_rob_g1 import ast_atoms, resolve_callee
 from ._helpers_rob_e2 import (
-    canon_atom, dominating_atoms, edge_ok_under, expand, expand_bool, expand_strings, inline_helpers, len_guard, local_defs,
+    canon_atom, canon_atoms, dominating_atoms, edge_ok_under, expand, expand_bool, expand_strings, inline_helpers, len_guard, local_defs,
     norm_fn,
     tri, value_arms,
 )
@@ -408,18 +408,43 @@ def r3(ctx):
     t = _ti_normal(ctx)
     p_class, p_name = t.params[1], t.params[2]
     g = ctx.cfg(t.node)
-    reads = [n for n in walk_local(t.node) if isinstance(n, ast.Assign) and isinstance(n.value, ast.Call)
-             and dotted(n.value.func) == "self._truncated_counters.get"]
-    ctx.require(len(reads) == 1 and isinstance(reads[0].targets[0], ast.Name), f"{t.key}: counter read not found")
-    rd = reads[0]
-    cvar = rd.targets[0].id
-    a = rd.value.args
-    ctx.check(len(a) == 2 and isinstance(a[0], ast.Name) and a[0].id == p_class and isinstance(a[1], ast.Constant)
-              and isinstance(a[1].value, int), t.key + ":counter-read",
-              f"counter is read as `{unparse(rd.value)}`, not per `{p_class}` with an integer start", unparse(rd.value), t.loc)
+    TABLE = "self._truncated_counters"
+    # the counter variable: a local assigned from the per-class table -- `T.get(cls, n)`, or the same thing spelled
+    # `T[cls] if cls in T else n` / as an if-else statement
+    def from_table(v):
+        return (isinstance(v, ast.Call) and dotted(v.func) in (TABLE + ".get", TABLE + ".setdefault")) \
+            or (isinstance(v, ast.Subscript) and dotted(v.value) == TABLE)
+    cvars = {n.targets[0].id for n in walk_local(t.node) if isinstance(n, ast.Assign) and len(n.targets) == 1
+             and isinstance(n.targets[0], ast.Name) and any(from_table(v) for v, _x in value_arms(n.value))}
+    ctx.require(len(cvars) == 1, f"{t.key}: counter read not found")
+    cvar = cvars.pop()
+    reads = _single_name_assigns(t.node, {cvar})
+    rd_nodes = [i for rd in reads for i in g.nodes_for(rd)]
+    problems = []
+    for rd in reads:
+        base = dominating_atoms(g, rd, t.node)
+        for v, extra in value_arms(rd.value):
+            known = {k for k, pol in canon_atoms(base + extra) if pol} | {"not " + k for k, pol in canon_atoms(base + extra) if not pol}
+            in_table = f"{p_class} in {TABLE}"
+            if isinstance(v, ast.Call) and dotted(v.func) in (TABLE + ".get", TABLE + ".setdefault"):
+                a = v.args
+                if not (len(a) == 2 and isinstance(a[0], ast.Name) and a[0].id == p_class and isinstance(a[1], ast.Constant)
+                        and isinstance(a[1].value, int) and not isinstance(a[1].value, bool)):
+                    problems.append(f"`{unparse(v)}`")
+            elif isinstance(v, ast.Subscript) and dotted(v.value) == TABLE:
+                if not (isinstance(v.slice, ast.Name) and v.slice.id == p_class and in_table in known):
+                    problems.append(f"`{unparse(v)}` (not under `{in_table}`)")
+            elif isinstance(v, ast.Constant) and isinstance(v.value, int) and not isinstance(v.value, bool):
+                if "not " + in_table not in known:
+                    problems.append(f"start value `{unparse(v)}` (not under `{p_class} not in {TABLE}`)")
+            else:
+                problems.append(f"`{unparse(v)}`")
+    shown = "; ".join(unparse(rd.value) for rd in reads)
+    ctx.check(not problems, t.key + ":counter-read",
+              f"counter is read as {', '.join(problems)}, not per `{p_class}` with an integer start", shown, t.loc)
     # embedded: the counter flows (through string-building locals) into a returned name
     ret_names = set(_computed_names(t))
-    name_asg = [n for n in _single_name_assigns(t.node, ret_names) if n is not rd
+    name_asg = [n for n in _single_name_assigns(t.node, ret_names) if n not in reads
                 and any(isinstance(x, ast.Name) and x.id == cvar for x in ast.walk(expand_strings(t.node, n.value)))]
     ctx.check(bool(name_asg), t.key + ":counter-embedded", "the counter value is not part of the truncated name",
               unparse(name_asg[0].value)[:70] if name_asg else "", t.loc)
@@ -431,7 +456,7 @@ def r3(ctx):
                   and {unparse(n.value.left), unparse(n.value.right)} == {cvar, "1"}]
     w = None
     if good_store:
-        w = g.must_pass([i for i in g.nodes_for(rd)], [g.exit], [i for s in good_store for i in g.nodes_for(s)], edge_ok=no_exc)
+        w = g.must_pass(rd_nodes, [g.exit], [i for s in good_store for i in g.nodes_for(s)], edge_ok=no_exc)
     ctx.check(bool(good_store) and w is None, t.key + ":counter-advance",
               "the counter is not stored back as counter + 1 on every path after it was used "
               "(two elements would receive the same truncated name)", f"{len(good_store)} store(s), all paths", t.loc, w)
@@ -443,8 +468,8 @@ def r3(ctx):
     # consulted first: a hit returns the memoised name, and nothing is computed (counter read) before the lookup
     early = bool(test_nodes) and bool(memo_ret) \
         and g.must_pass([i for i in hit_starts if i not in memo_ret], [g.exit], memo_ret, edge_ok=no_exc) is None \
-        and not (set(g.nodes_for(rd)) & g.reachable(hit_starts, edge_ok=no_exc)) \
-        and all(g.always_preceded(i, test_nodes) is None for i in g.nodes_for(rd))
+        and not (set(rd_nodes) & g.reachable(hit_starts, edge_ok=no_exc)) \
+        and all(g.always_preceded(i, test_nodes) is None for i in rd_nodes)
     ctx.check(early, t.key + ":memo-lookup", "the memo table is not consulted first under the key (ident_class, name)",
               "memo lookup first", t.loc)
     memo_store = [n for n in walk_local(t.node) if isinstance(n, ast.Assign) and isinstance(n.targets[0], ast.Subscript)
@@ -1153,3 +1178,24 @@ def _ml_suffix_helper(digest_of="name", keep="[-4:]"):
 R.mutant("benign-digest-suffix-in-helper-method", COMP, _ml_suffix_helper(), None)
 R.mutant("r1-digest-helper-keeps-eight-characters", COMP, _ml_suffix_helper(keep="[-8:]"), "C21-R1")
 R.mutant("r2-digest-helper-of-type-and-name", COMP, _ml_suffix_helper(digest_of="str(id(name))"), "C21-R2")
+
+
+def _ti_rfi3(max_len="self.label_length - 6", miss_arm="                counter = 1\n",
+             advance="            counters[ident_class] = counter + 1\n"):
+    return sub(_TI, '        cache_key = (ident_class, name)\n        truncated_names = self.truncated_names\n'
+                    '        if cache_key in truncated_names:\n            return truncated_names[cache_key]\n\n'
+                    '        anonname = name.apply_map(self.anon_map)\n\n        max_len = ' + max_len + '\n'
+                    '        if len(anonname) <= max_len:\n            truncname = anonname\n        else:\n'
+                    '            counters = self._truncated_counters\n            if ident_class in counters:\n'
+                    '                counter = counters[ident_class]\n            else:\n' + miss_arm +
+                    '            truncname = anonname[0 : max(max_len, 0)] + "_" + hex(counter)[2:]\n' + advance +
+                    '        truncated_names[cache_key] = truncname\n        return truncname\n')
+
+
+R.mutant("benign-rfI3-counter-read-if-else-max-len-local", COMP, _ti_rfi3(), None)
+R.mutant("r1-max-len-local-too-large", COMP, _ti_rfi3(max_len="self.label_length - 2"), "C21-R1")
+R.mutant("r3-if-else-counter-advanced-only-for-new-class", COMP,
+         _ti_rfi3(miss_arm="                counter = 1\n                counters[ident_class] = counter + 1\n", advance=""), "C21-R3")
+R.mutant("r3-if-else-counter-read-of-other-class", COMP,
+         sub("            counter = self._truncated_counters.get(ident_class, 1)\n",
+             "            counter = self._truncated_counters.get(name, 1)\n"), "C21-R3")
